@@ -247,6 +247,7 @@ type vProbe struct {
 	overlap   bool // a subscription was made while an earlier one was still live
 	maxLive   int  // the largest number of simultaneously live subscriptions seen
 	yieldSub  bool // vYield inside SubscribeWithContext (widens the window for concurrent subscribers)
+	yieldEmit bool // vYield before each emission of a cold script (concurrent subscriptions interleave)
 	cold      bool
 	itemCtx   bool // attach a per-item marker to the context of each Next
 }
@@ -301,6 +302,9 @@ func (p *vProbe) SubscribeWithContext(ctx context.Context, d Observer[int64]) Su
 		}
 	} else if p.cold {
 		for _, st := range p.script {
+			if p.yieldEmit {
+				vYield()
+			}
 			p.emitAt(i, st)
 		}
 	}
